@@ -26,6 +26,7 @@ int vk_nwait;
 static struct vk_fd fds[VK_MAXFD];
 static int next_dyn = VK_DYN_BASE;
 static int n_ctl;
+static int n_efd;		/* eventfd descriptors created so far */
 
 #define MAXENT 256
 struct vk_ent {
@@ -196,11 +197,12 @@ static int vk_eventfd(int flags2)
 		errno = EMFILE;
 		return -1;
 	}
-	if (vk_faults.no_eventfd || (flags2 && vk_faults.no_eventfd2)) {
+	if (n_efd >= vk_faults.efd_ok && (vk_faults.no_eventfd || (flags2 && vk_faults.no_eventfd2))) {
 		errno = ENOSYS;
 		return -1;
 	}
 	fd = vk_alloc(VK_EVENTFD);
+	n_efd++;
 	if (flags2) {
 		fds[fd].cloexec = 1;
 		fds[fd].nonblock = 1;
